@@ -63,6 +63,8 @@ SCRIPT = """import subprocess
 hist = {hist!r}
 code = '''import sys, importlib; sys.path.insert(0, sys.argv[1])
 for m in sys.argv[2:]:
+    if m.startswith("star:"):
+        exec("from %s import *" % m[5:], dict()); continue
     name = m[5:] if m.startswith("from:") else m
     if m.startswith("from:"):
         ns = dict(); exec("from %s import %s as bound" % tuple(name.rsplit(".", 1)), ns); bound = ns["bound"]
@@ -101,6 +103,9 @@ def run_shard(shard, ctx):
             res = out["results"][-1][1]
             if res != "ok" and m not in failing:
                 failing[m] = (hist, res)
+            for mn, why in out.get("star_failures", ()):
+                if "star:" + mn not in failing:
+                    failing["star:" + mn] = (tuple(hist) + ("star:" + mn,), "from %s import * fails: %s" % (mn, why))
             ctx.hist["import_ok" if res == "ok" else "import_failed"] += 1
             nfp = out["fingerprint"]
             trans[(fp, m)] = nfp
